@@ -168,7 +168,7 @@ class Nodes(Query[Node]):
 					return False
 
 				# 記録済みの変換対象以降の要素は全て除外
-				if len([cached for cached in record if path.startswith(cached)]):
+				if len([cached for cached in record if path.startswith(f'{cached}.')]):
 					return False
 
 				entry_path = EntryPath(path)
